@@ -37,11 +37,13 @@ CONSTANTS Producers,   \* set of producer ids (1, 2, ..)
           Kinds,       \* set of allowed producer kinds, subset of {"try", "block"}
           WithStopper, \* a thread calls request_stop at some point
           WithEnd,     \* the end time may be reached while the loop waits
+          StopAts,     \* the stopper starts after this many gate steps (a set: chosen in Init; {0} = any time)
+          Mutant,      \* "none", or a deliberately broken variant of the design (self-test: the invariants must catch it)
           Replay,      \* internal steps are taken as soon as they are enabled (the granularity of schedule replay)
           Emit         \* print finished behaviours as schedules
 
 VARIABLES
-    Policy, Cap,  \* the configuration, chosen in Init (never changes)
+    Policy, Cap, stopAt,  \* the configuration, chosen in Init (never changes)
     \* queue policy storage (queue mutex)
     q, accepting, cval, cpend,
     \* sender control (control mutex)
@@ -63,18 +65,19 @@ VARIABLES
     bad,          \* "" or the name of the level A clause that an action violated at its decision point
     hist          \* gate steps <<thread, gate>>
 
-vars == <<Policy, Cap, q, accepting, cval, cpend, closing, active, detached, pushPending, stopReq, epc, more, endReached,
+vars == <<Policy, Cap, stopAt, q, accepting, cval, cpend, closing, active, detached, pushPending, stopReq, epc, more, endReached,
           ppc, pidx, pres, padm, pkind, notified, spc, accepted, delivered, dropped, cycle, stopIssued, bad, hist>>
-NoHist == <<Policy, Cap, q, accepting, cval, cpend, closing, active, detached, pushPending, stopReq, epc, more, endReached,
+NoHist == <<Policy, Cap, stopAt, q, accepting, cval, cpend, closing, active, detached, pushPending, stopReq, epc, more, endReached,
             ppc, pidx, pres, padm, pkind, notified, spc, accepted, delivered, dropped, cycle, stopIssued, bad>>
 
 Val(p, i) == p * 10 + i
-Full == Cap # 0 /\ Len(q) >= Cap
+Full == Cap # 0 /\ (IF Mutant = "full_gt" THEN Len(q) > Cap ELSE Len(q) >= Cap)
 RECURSIVE Flat(_)
 Flat(d) == IF d = <<>> THEN <<>> ELSE Head(d).vals \o Flat(Tail(d))
 NDelivered == Len(Flat(delivered))
 Undelivered == IF Policy = "conf" THEN (IF cpend THEN 1 ELSE 0) ELSE Len(accepted) - NDelivered - dropped
-StopKnown == stopIssued \/ closing \/ ~accepting
+SourceStopped == epc \in {"quiesce", "done"}      \* the stop critical section of the queue storage has run
+StopKnown == stopIssued \/ closing \/ SourceStopped
 Gate(th, g) == hist' = Append(hist, <<th, g>>)
 PName(p) == "p" \o ToString(p)
 
@@ -118,14 +121,15 @@ Admit(p) == /\ accepted' = Append(accepted, Val(p, pidx[p]))
             /\ pres' = [pres EXCEPT ![p] = TRUE]
             /\ padm' = [padm EXCEPT ![p] = TRUE]
             /\ bad' = IF bad # "" THEN bad
-                      ELSE IF ~accepting THEN "C16.accepted_after_stop"
+                      ELSE IF SourceStopped THEN "C16.accepted_after_stop"
                       ELSE IF Policy # "conf" /\ Cap # 0 /\ Len(accepted) - NDelivered - dropped + 1 > Cap THEN "C16.capacity_exceeded"
                       ELSE ""
             /\ IF Policy = "conf"
                THEN /\ cval' = Val(p, pidx[p]) /\ cpend' = TRUE /\ UNCHANGED q
                     /\ ppc' = [ppc EXCEPT ![p] = IF ~cpend THEN "mark" ELSE "leave"]
                ELSE /\ q' = Append(q, Val(p, pidx[p])) /\ UNCHANGED <<cval, cpend>>
-                    /\ ppc' = [ppc EXCEPT ![p] = IF q = <<>> THEN "mark" ELSE "leave"]
+                    \* mutant wake_after_push: was_empty computed after push_back - never true
+                    /\ ppc' = [ppc EXCEPT ![p] = IF q = <<>> /\ Mutant # "wake_after_push" THEN "mark" ELSE "leave"]
 
 Refuse(p, justified) == /\ ppc' = [ppc EXCEPT ![p] = "leave"] /\ pres' = [pres EXCEPT ![p] = FALSE]
                         /\ bad' = IF bad = "" /\ ~justified THEN RefusalClause(p) ELSE bad
@@ -249,7 +253,7 @@ EPop == /\ epc = "pop"
                   /\ cpend' = FALSE /\ more' = FALSE
                   /\ delivered' = IF cpend THEN Append(delivered, [vals |-> <<cval>>, cycle |-> cycle]) ELSE delivered
                   /\ UNCHANGED <<q, cval, notified>>
-        /\ epc' = IF more' THEN "remark" ELSE "head"
+        /\ epc' = IF more' /\ Mutant # "no_remark" THEN "remark" ELSE "head"
         /\ UNCHANGED <<accepting, closing, active, detached, pushPending, stopReq, endReached, dropped, cycle>>
         /\ EUnch
 
@@ -270,7 +274,8 @@ EClose == /\ epc = "close"
 
 EQStop == /\ epc = "qstop"
           /\ Gate("e", IF Policy = "conf" THEN "cf_stop_pre" ELSE "pq_stop_pre")
-          /\ accepting' = FALSE /\ q' = <<>> /\ cpend' = FALSE
+          \* mutant late_close: values cleared but the accepting flag left set
+          /\ accepting' = (Mutant = "late_close") /\ q' = <<>> /\ cpend' = FALSE
           /\ dropped' = dropped + (IF Policy = "conf" THEN 0 ELSE Len(q))
           /\ notified' = notified \cup Blocked       \* notify_all
           /\ epc' = "quiesce"
@@ -288,7 +293,7 @@ EQuiesce == /\ epc = "quiesce" /\ active = 0
 (***************************************************************************)
 SUnch == UNCHANGED <<q, accepting, cval, cpend, closing, active, detached, pushPending, epc, more, endReached, ppc, pidx, pres, padm, pkind,
                      notified, accepted, delivered, dropped, cycle, bad>>
-SCall == /\ WithStopper /\ spc = "idle"
+SCall == /\ WithStopper /\ spc = "idle" /\ Len(hist) >= stopAt
          /\ spc' = "stop" /\ stopIssued' = TRUE
          /\ UNCHANGED <<stopReq, hist>> /\ SUnch
 SStop == /\ spc = "stop"
@@ -313,7 +318,8 @@ Finish == /\ Finished /\ bad # "emitted"
           /\ UNCHANGED <<q, accepting, cval, cpend, closing, active, detached, pushPending, stopReq, epc, more, endReached,
                          ppc, pidx, pres, padm, pkind, notified, spc, accepted, delivered, dropped, cycle, stopIssued, hist>>
 
-Init == /\ Policy \in Policies /\ Cap \in (IF Policy = "conf" THEN {0} ELSE Caps)
+Init == /\ stopAt \in StopAts
+        /\ Policy \in Policies /\ Cap \in (IF Policy = "conf" THEN {0} ELSE Caps)
         /\ q = <<>> /\ accepting = TRUE /\ cval = 0 /\ cpend = FALSE
         /\ closing = FALSE /\ active = 0 /\ detached = FALSE
         /\ pushPending = FALSE /\ stopReq = FALSE
@@ -326,10 +332,10 @@ Init == /\ Policy \in Policies /\ Cap \in (IF Policy = "conf" THEN {0} ELSE Caps
 
 Next == /\ IF Replay THEN (IF InternalEnabled THEN Internal ELSE (GateStep \/ Finish))
            ELSE (Internal \/ GateStep)
-        /\ UNCHANGED <<Policy, Cap>>
+        /\ UNCHANGED <<Policy, Cap, stopAt>>
 
-EvalNext == (EHead \/ EAdvance \/ EWake \/ EPost \/ EReset \/ EPop \/ ERemark \/ EClose \/ EQStop \/ EQuiesce) /\ UNCHANGED <<Policy, Cap>>
-ProdNext(p) == (PCall(p) \/ PEnter(p) \/ PCheck(p) \/ PSend(p) \/ PUnblock(p) \/ PMark(p) \/ PLeave(p) \/ PRet(p)) /\ UNCHANGED <<Policy, Cap>>
+EvalNext == (EHead \/ EAdvance \/ EWake \/ EPost \/ EReset \/ EPop \/ ERemark \/ EClose \/ EQStop \/ EQuiesce) /\ UNCHANGED <<Policy, Cap, stopAt>>
+ProdNext(p) == (PCall(p) \/ PEnter(p) \/ PCheck(p) \/ PSend(p) \/ PUnblock(p) \/ PMark(p) \/ PLeave(p) \/ PRet(p)) /\ UNCHANGED <<Policy, Cap, stopAt>>
 Spec == Init /\ [][Next]_vars
 FairSpec == Init /\ [][Next]_vars /\ WF_vars(EvalNext) /\ \A p \in Producers : WF_vars(ProdNext(p))
 
